@@ -45,6 +45,11 @@ pub struct Scenario {
     pub rendezvous: bool,
     pub users: Vec<String>,
     pub watchdog_ms: u64,
+    /// requests are also asked through enforce_with_context(<suffix>): serial rows per state
+    #[serde(default)]
+    pub ctx: Option<String>,
+    #[serde(default)]
+    pub ctx_rows: Vec<String>,
 }
 
 // ---------- the rendezvous role manager ----------
@@ -82,6 +87,11 @@ fn vals_of(req: &str) -> Vec<Dynamic> { if req == "|" { vec![] } else { req.spli
 
 fn enforce_ref(e: &E, req: &str) -> char {
     let r = match e { E::Plain(x) => x.enforce(vals_of(req)), E::Cached(x) => x.enforce(vals_of(req)) };
+    match r { Ok(true) => 't', Ok(false) => 'f', Err(_) => 'e' }
+}
+
+fn enforce_ctx_ref(e: &E, sfx: &str, req: &str) -> char {
+    let r = match e { E::Plain(x) => x.enforce_with_context(casbin::EnforceContext::new(sfx), vals_of(req)), E::Cached(x) => x.enforce_with_context(casbin::EnforceContext::new(sfx), vals_of(req)) };
     match r { Ok(true) => 't', Ok(false) => 'f', Err(_) => 'e' }
 }
 
@@ -177,9 +187,10 @@ pub fn child(path: &str) -> i32 {
                         let g = shared.read();
                         let v = ver.load(SeqCst);
                         let e = g.ew.enf.as_ref().unwrap();
-                        let d = enforce_ref(e, &sc.reqs[j]);
-                        let want = sc.rows[v].as_bytes()[j] as char;
-                        if d != want { mm.lock().push(format!("thread {}: enforce({}) = {} in the state after {} writes, serial decision there = {}", ti, sc.reqs[j], d, v, want)); }
+                        let through_ctx = sc.ctx.is_some() && rng.below(2) == 0;
+                        let (d, want) = if through_ctx { (enforce_ctx_ref(e, sc.ctx.as_ref().unwrap(), &sc.reqs[j]), sc.ctx_rows[v].as_bytes()[j] as char) }
+                                        else { (enforce_ref(e, &sc.reqs[j]), sc.rows[v].as_bytes()[j] as char) };
+                        if d != want { mm.lock().push(format!("thread {}: {}({}) = {} in the state after {} writes, serial decision there = {}", ti, if through_ctx { "enforce_with_context" } else { "enforce" }, sc.reqs[j], d, v, want)); }
                         if v < last_v { mm.lock().push(format!("thread {}: state went back from {} to {}", ti, last_v, v)); }
                         last_v = v;
                         if sc.helpers && !sc.perms.is_empty() && rng.below(6) == 0 {
@@ -415,7 +426,7 @@ pub fn run(rec: &mut Recorder, w: &mut World, tier: &str, seed: u64) {
                 // ---- concurrent runs (implementation only) ----
                 let base = Scenario { what: format!("{}{}", name, if cached { "+cached" } else { "" }), setup, history, reqs: req_strs, rows, perms, irows,
                     threads: 2, rounds: if thorough { 30 } else { 10 }, seed: rng.next(), writer: false, handle: "none".into(), helpers: false, rendezvous: false,
-                    users: sv(&["alice", "bob", "admin"]), watchdog_ms: 20000 };
+                    users: sv(&["alice", "bob", "admin"]), watchdog_ms: 20000, ctx: None, ctx_rows: vec![] };
                 let mut variants: Vec<Scenario> = vec![];
                 let th = thread_counts[si % thread_counts.len()];
                 variants.push(Scenario { threads: th, ..base.clone() });                                                       // readers only
@@ -439,4 +450,51 @@ pub fn run(rec: &mut Recorder, w: &mut World, tier: &str, seed: u64) {
             }
         }
     }
+    // ---- two matcher sections used side by side: enforce next to enforce_with_context("2") ----
+    let rb = ks.iter().find(|k| k.name == "rbac").unwrap().clone();
+    let acl = ks.iter().find(|k| k.name == "acl").unwrap().clone();
+    for si in 0..n_scen { for cached in [false, true] {
+        let mut m = model_of(&rb, E_ALLOW, false, "", false);
+        let b2 = model_of(&acl, E_ALLOW, false, "2", false);
+        m.r.extend(b2.r); m.p.extend(b2.p); m.e.extend(b2.e); m.m.extend(b2.m);
+        rec.begin();
+        rec.exec(w, &format!("e.cached\t{}", cached));
+        let rules: Vec<Vec<String>> = (0..3 + rng.below(3)).map(|_| gen_rule(&mut rng, &rb, false)).collect();
+        let rules2: Vec<Vec<String>> = (0..2 + rng.below(3)).map(|_| gen_rule(&mut rng, &acl, false)).collect();
+        let links = gen_links(&mut rng, &rb);
+        let mut lines = lines_of("p", &rules, &rb.g, &links);
+        for r in &rules2 { let mut l = sv(&["p", "p2"]); l.extend(r.iter().cloned()); lines.insert(0, l); }
+        lines.sort_by_key(|l| (l[0].clone() != "p") as u8);
+        lines.dedup();
+        if new_enforcer(rec, w, &m, "memory", &lines, "", false) != "ok" { rec.fail("new-failed", "cannot build the two-section enforcer".into()); continue; }
+        let setup: Vec<String> = rec.current.clone();
+        let reqs = requests(&rb);
+        let req_strs: Vec<String> = reqs.iter().map(|r| if r.is_empty() { "|".to_string() } else { r.join(",") }).collect();
+        let mut rows = vec![rec.exec(w, &format!("e.enfs\t{}", enc_reqs(&reqs)))];
+        let mut ctx_rows = vec![rec.exec(w, &format!("e.enfcs\t2\t{}", enc_reqs(&reqs)))];
+        let mut history = vec![];
+        for _ in 0..4 + rng.below(6) {
+            let op = match rng.below(5) { 0 | 1 => MOp::Add("p".into(), "p".into(), gen_rule(&mut rng, &rb, false)), 2 | 3 => MOp::Add("p".into(), "p2".into(), gen_rule(&mut rng, &acl, false)),
+                _ => MOp::Add("g".into(), "g".into(), rng.pick(&rb.links[0]).clone()) };
+            rec.exec(w, &op.line()); history.push(op.line());
+            rows.push(rec.exec(w, &format!("e.enfs\t{}", enc_reqs(&reqs))));
+            ctx_rows.push(rec.exec(w, &format!("e.enfcs\t2\t{}", enc_reqs(&reqs))));
+        }
+        if rows[0] == ctx_rows[0] { rec.count("sections:identical-rows"); }
+        let th = thread_counts[si % thread_counts.len()].max(4);
+        let base = Scenario { what: format!("two-sections{}", if cached { "+cached" } else { "" }), setup, history, reqs: req_strs, rows, perms: vec![], irows: vec![],
+            threads: th, rounds: if thorough { 60 } else { 25 }, seed: rng.next(), writer: false, handle: "none".into(), helpers: false, rendezvous: false,
+            users: vec![], watchdog_ms: 20000, ctx: Some("2".into()), ctx_rows };
+        for v in [base.clone(), Scenario { writer: true, handle: "read".into(), ..base.clone() }] {
+            if rec.hist.get("spec_failure:deadlock").copied().unwrap_or(0) >= 2 { continue; }
+            let label = format!("{} threads={} writer={} (enforce mixed with enforce_with_context(2))", v.what, v.threads, v.writer);
+            let js = serde_json::to_string(&v).unwrap();
+            let out = rec.exec_impl_only(w, &format!("conc.run\t{}", esc(&js)));
+            rec.count(&format!("run:two-sections:{}", out.split(|c| c == ':' || c == ' ').next().unwrap_or("")));
+            if out.starts_with("timeout") { rec.fail("deadlock", format!("[{}] a call never returned: {}", label, out)); }
+            else if out.starts_with("mismatch") { rec.fail("decision-not-serial", format!("[{}] {}", label, out)); }
+            else if !out.starts_with("ok") { rec.fail("concurrent-run-crashed", format!("[{}] {}", label, out)); }
+            else { rec.nontrivial_case(&label); rec.count_n("decisions-checked", (v.threads * v.rounds * v.reqs.len()) as u64); }
+        }
+    } }
 }
